@@ -371,17 +371,14 @@ impl<const N: u8> fmt::Debug for Wide<N> {
 impl<const N: u8> Serialize for Wide<N> {
     fn serialize<S: Serializer>(&self, s: S) -> Result<S::Ok, S::Error> {
         ledger::tick(Callback::Ser);
-        s.serialize_u64(self.p as u64 + 1_000_000_000_000)
+        s.serialize_u64(self.p as u64)
     }
 }
 impl<'de, const N: u8> Deserialize<'de> for Wide<N> {
     fn deserialize<D: Deserializer<'de>>(d: D) -> Result<Self, D::Error> {
         ledger::tick(Callback::De);
         let v = u64::deserialize(d)?;
-        let p = v
-            .checked_sub(1_000_000_000_000)
-            .and_then(|x| u32::try_from(x).ok())
-            .ok_or_else(|| serde::de::Error::custom("bad Wide payload"))?;
+        let p = u32::try_from(v).map_err(|_| serde::de::Error::custom("bad Wide payload"))?;
         Ok(Wide { tag: WIDE_TAG | N as u64, serial: ledger::new_serial(Kind::Wide, N), p })
     }
 }
